@@ -176,18 +176,11 @@ func searchNormalForm(p *core.Prog, c0 *core.Ctx, kf *core.KnownFindings, runAt 
 }
 
 // stem of an obligation key: the key without the segments that name functions (which inlining moves).
-func stem(key string, fnNames map[string]bool) string {
+func stem(key string, drop map[string]bool) string {
 	var out []string
 	for _, seg := range strings.Split(key, "/") {
 		if strings.ContainsAny(seg, "($[.") {
 			continue
-		}
-		if fnNames[seg] {
-			continue // a renameable identifier
-		}
-		// imported obligations carry "R6:<first segment of the source key>"
-		if i := strings.Index(seg, ":"); i > 0 && fnNames[seg[i+1:]] {
-			seg = seg[:i+1]
 		}
 		// "#2" only enumerates the instances of one construct
 		if i := strings.LastIndex(seg, "#"); i > 0 {
@@ -201,22 +194,30 @@ func stem(key string, fnNames map[string]bool) string {
 				seg = seg[:i]
 			}
 		}
+		if drop[seg] {
+			continue // a renameable identifier that does not distinguish obligations (function, field, parameter)
+		}
+		// imported obligations carry "R6:<first segment of the source key>"
+		if i := strings.Index(seg, ":"); i > 0 && drop[seg[i+1:]] {
+			seg = seg[:i+1]
+		}
 		out = append(out, seg)
 	}
 	return strings.Join(out, "/")
 }
 
-// unexportedNames: the unexported identifiers of the analysed program that can show up as a key segment:
-// package-level functions, named types, struct fields, parameters.
-func unexportedNames(p *core.Prog) map[string]bool {
-	names := map[string]bool{}
+// unexportedNames: the unexported identifiers of the analysed program that can show up as a key segment.
+// drop: package-level functions, struct fields, parameters (never distinguish two obligations of one rule);
+// typs: named types (they do: "wire-length/lengthFieldCodec" vs "wire-length/varintLengthFieldCodec").
+func unexportedNames(p *core.Prog) (drop, typs map[string]bool) {
+	drop, typs = map[string]bool{}, map[string]bool{}
 	for _, fn := range p.Funcs {
 		if fn.Parent() == nil && fn.Signature.Recv() == nil && fn.Name() != "" && !ast.IsExported(fn.Name()) {
-			names[fn.Name()] = true
+			drop[fn.Name()] = true
 		}
 		for _, prm := range fn.Params {
 			if prm.Name() != "" {
-				names[prm.Name()] = true
+				drop[prm.Name()] = true
 			}
 		}
 	}
@@ -231,53 +232,117 @@ func unexportedNames(p *core.Prog) map[string]bool {
 				continue
 			}
 			if !tn.Exported() {
-				names[tn.Name()] = true
+				typs[tn.Name()] = true
 			}
 			if st, ok := tn.Type().Underlying().(*types.Struct); ok {
 				for i := 0; i < st.NumFields(); i++ {
 					if f := st.Field(i); !f.Exported() {
-						names[f.Name()] = true
+						drop[f.Name()] = true
 					}
 				}
 			}
 		}
 	}
-	return names
-}
-
-// stems of the obligations of c. Renameable identifiers are dropped from the keys: those of the blessed
-// tree (recorded in the reference file, so that a literal key segment that happens to equal one of them is
-// dropped on every tree alike) and, in the second set, also those of the analysed program.
-func stemSets(c *core.Ctx) (blessedOnly, withOwn map[string]bool) {
-	blessedOnly, withOwn = map[string]bool{}, map[string]bool{}
-	own := unexportedNames(c.P)
-	both := map[string]bool{}
-	for k := range refNames {
-		both[k] = true
-	}
-	for k := range own {
-		both[k] = true
-	}
-	for _, o := range c.Obs {
-		if strings.Contains(o.Key, "<floor>") || strings.Contains(o.Key, "/anchors/") || strings.Contains(o.Key, "/internal/") || strings.Contains(o.Key, "/coverage/") {
-			continue
-		}
-		blessedOnly[stem(o.Key, refNames)] = true
-		withOwn[stem(o.Key, both)] = true
+	for t := range typs {
+		delete(drop, t)
 	}
 	return
 }
 
+// stems of the obligations of c: keys without function-naming segments, enumerators and the renameable
+// identifiers of the blessed tree and of the analysed program that do not distinguish obligations.
+// Unexported type names stay (they do distinguish) and are matched modulo renaming by missingStems.
 func stems(c *core.Ctx) map[string]bool {
-	_, w := stemSets(c)
-	return w
+	ownDrop, ownTypes := unexportedNames(c.P)
+	drop := map[string]bool{}
+	for k := range refDrop {
+		drop[k] = true
+	}
+	for k := range ownDrop {
+		if !ownTypes[k] && !refTypes[k] {
+			drop[k] = true
+		}
+	}
+	for k := range refTypes {
+		delete(drop, k)
+	}
+	m := map[string]bool{}
+	for _, o := range c.Obs {
+		if strings.Contains(o.Key, "<floor>") || strings.Contains(o.Key, "/anchors/") || strings.Contains(o.Key, "/internal/") || strings.Contains(o.Key, "/coverage/") {
+			continue
+		}
+		m[stem(o.Key, drop)] = true
+	}
+	return m
 }
 
+// missingStems: the reference kinds that c does not examine. A blessed type name that no longer exists in
+// the analysed program may have been renamed: it matches one new type name of the program, the same one in
+// every stem.
 func missingStems(base map[string]bool, c *core.Ctx) []string {
-	a, b := stemSets(c)
+	have := stems(c)
+	_, ownTypes := unexportedNames(c.P)
+	var gone, fresh []string
+	for t := range refTypes {
+		if !ownTypes[t] {
+			gone = append(gone, t)
+		}
+	}
+	for t := range ownTypes {
+		if !refTypes[t] {
+			fresh = append(fresh, t)
+		}
+	}
+	sort.Strings(gone)
+	sort.Strings(fresh)
+	subst := func(s, from, to string) string {
+		segs := strings.Split(s, "/")
+		for i, seg := range segs {
+			if seg == from {
+				segs[i] = to
+			} else if j := strings.Index(seg, ":"); j > 0 && seg[j+1:] == from {
+				segs[i] = seg[:j+1] + to
+			}
+		}
+		return strings.Join(segs, "/")
+	}
+	rename := map[string]string{}
+	used := map[string]bool{}
+	for _, g := range gone {
+		best, bestN := "", 0
+		for _, f := range fresh {
+			if used[f] {
+				continue
+			}
+			n, all := 0, true
+			for s := range base {
+				if !strings.Contains(s, g) {
+					continue
+				}
+				if t := subst(s, g, f); t != s {
+					if have[t] {
+						n++
+					} else {
+						all = false
+					}
+				}
+			}
+			if all && n > bestN {
+				best, bestN = f, n
+			}
+		}
+		if best != "" {
+			rename[g] = best
+			used[best] = true
+		}
+	}
 	var out []string
 	for s := range base {
-		if !a[s] && !b[s] {
+		t := s
+		for g, f := range rename {
+			t = subst(t, g, f)
+		}
+		if !have[t] {
 			out = append(out, s)
 		}
 	}
@@ -288,11 +353,13 @@ func missingStems(base map[string]bool, c *core.Ctx) []string {
 // (/verif/reference_stems.json, regenerated with -write-stems whenever rules change). A normal form is
 // accepted only when it examines all of them. Without the file no normal form is accepted.
 var refStems = map[string]map[string]bool{}
-var refNames = map[string]bool{}
+var refDrop = map[string]bool{}
+var refTypes = map[string]bool{}
 var refStemsLoaded bool
 
 type refFile struct {
-	Identifiers []string            `json:"unexported_identifiers_of_the_blessed_tree"`
+	Identifiers []string            `json:"unexported_functions_fields_parameters_of_the_blessed_tree"`
+	Types       []string            `json:"unexported_types_of_the_blessed_tree"`
 	Stems       map[string][]string `json:"obligation_kinds"`
 }
 
@@ -306,7 +373,10 @@ func loadRefStems(verif string) {
 		return
 	}
 	for _, n := range rf.Identifiers {
-		refNames[n] = true
+		refDrop[n] = true
+	}
+	for _, n := range rf.Types {
+		refTypes[n] = true
 	}
 	for id, ss := range rf.Stems {
 		refStems[id] = map[string]bool{}
@@ -320,15 +390,23 @@ func loadRefStems(verif string) {
 func writeRefStems(verif string, all map[string]*core.Ctx) error {
 	rf := refFile{Stems: map[string][]string{}}
 	for _, c := range all {
-		for n := range unexportedNames(c.P) {
-			refNames[n] = true
+		d, t := unexportedNames(c.P)
+		for n := range d {
+			refDrop[n] = true
+		}
+		for n := range t {
+			refTypes[n] = true
 		}
 		break
 	}
-	for n := range refNames {
+	for n := range refDrop {
 		rf.Identifiers = append(rf.Identifiers, n)
 	}
+	for n := range refTypes {
+		rf.Types = append(rf.Types, n)
+	}
 	sort.Strings(rf.Identifiers)
+	sort.Strings(rf.Types)
 	for id, c := range all {
 		var ss []string
 		for s := range stems(c) {
